@@ -199,7 +199,23 @@ def r4_absent_params(ctx):
     R.check(len(built) == 1, "C16.R4", "sequence:builds-sequence", "sequence() builds one ParamsSequence", "sequence() builds %d ParamsSequence values" % len(built), "%s:%d" % (s.file, s.lo))
 
 
-RULES = [r1_only_invalid_params, r2_poison_on_error, r3_exhaustion_table, r4_absent_params]
+
+def rown_into_owned(ctx):
+    """Params::into_owned (what async handlers receive) is the same text as the borrowed params"""
+    from .common import into_owned_fieldwise
+    into_owned_fieldwise(ctx, "C16.OWN", r"^jsonrpsee_types::params::Params::<.*>::into_owned$", 1)
+
+
+def rnext_reads_T(ctx):
+    """`next::<T>` reads a T - not an Option<T>, for which a JSON null is 'absent'"""
+    F, R = ctx.F, ctx.R
+    b = F.one(r"^jsonrpsee_types::params::ParamsSequence::<'a>::next$")
+    R.fn(b)
+    ni = b.calls_to(r"ParamsSequence::<'a>::next_inner$")
+    R.check(len(ni) == 1 and ni[0].ga and ni[0].ga[-1] == "T", "C16.NEXT", "next:reads-T", "next::<T> reads the element as T", "ParamsSequence::next::<T> does not read the element as T via next_inner::<T> (%s): a JSON null read with next() is reported as 'no more params' although a plain parse of the element succeeds" % ([c.ga for c in ni] or sorted({short(c.name()) for c in b.calls})[:4]), "%s:%d" % (b.file, b.lo))
+
+
+RULES = [r1_only_invalid_params, r2_poison_on_error, r3_exhaustion_table, r4_absent_params, rown_into_owned, rnext_reads_T]
 
 LEVEL_TEXT = (
     "Only the error-discipline slice of the property is claimed: the single error constructor (hence the single code "
